@@ -461,7 +461,10 @@ RefData(typ, s) ==
 NameActs == {"isAvailable", "register", "registerTLD"}
 DataActs == {"addRecord", "setRecord"}
 
-Accepted(e) == e.res = "HALT"
+\* A call is refused by a FAULT or by returning false (register does that for a taken name; an
+\* implementation may equally answer false instead of failing for a malformed one)
+Accepted(e) == e.res = "HALT" /\ e.ret # "false"
+Refused(e)  == e.res = "FAULT" \/ e.ret = "false"
 Ref(e) == IF e.act \in NameActs THEN RefName(e.s) ELSE RefData(e.typ, e.s)
 
 \* inputs the statement quantifies over
@@ -486,14 +489,20 @@ StateAllowsOn(st, e) ==
     [] OTHER -> FALSE
 
 \* accepted <=> well-formed (st = the storage the invocation ran on)
+\*   OnlyValid: nothing malformed is accepted
+\*   AllValid:  nothing well-formed is refused for its syntax: when the storage allows the call it must
+\*              HALT; whether isAvailable answers true or false, and register for a name that is
+\*              already taken, is not a matter of syntax
 C18_OnlyValid(e)      == InSpace(e) /\ Accepted(e) => Ref(e)
-C18_AllValidOn(st, e) == InSpace(e) /\ Ref(e) /\ StateAllowsOn(st, e) => Accepted(e)
+C18_AllValidOn(st, e) == InSpace(e) /\ Ref(e) /\ StateAllowsOn(st, e) =>
+                           /\ e.res = "HALT"
+                           /\ (e.act = "register" /\ e.s \notin st.names => e.ret = "true")
 C18_AllValid(e)       == C18_AllValidOn(St, e)
-\* rejection changes nothing (register may also refuse by returning false)
-C18_RejectInert(e) == (e.res = "FAULT" \/ e.ret = "false") => UNCHANGED <<roots, names, recs>>
-\* an accepted record is stored as given
-C18_Stored(e) == e.act \in DataActs /\ Accepted(e) =>
-                   \E r \in recs' : r.name = e.name /\ r.typ = e.typ /\ r.data = e.s
+\* rejection changes nothing
+C18_RejectInert(e) == Refused(e) => UNCHANGED <<roots, names, recs>>
+\* (binding only, the statement does not say it) an accepted record is stored as given
+Stored(e) == e.act \in DataActs /\ Accepted(e) =>
+                \E r \in recs' : r.name = e.name /\ r.typ = e.typ /\ r.data = e.s
 
 \* deviation tags: predicates over one invocation that name a listed deviation of the code
 TagSignedOctet(e) ==       \* A data accepted although an octet carries a sign
